@@ -58,13 +58,15 @@ GDS_NOTE = ('Compositional: the end-to-end GdsLibrary::write / from_bytes cannot
             'GdsParser::next -> hands out the harness record list (its contract is checked by c01_q_l2n_next); alloc::fmt::format -> '
             'empty string. READER_BUFSIZE is 64 under cfg(kani) (payloads < 64 bytes). Properties (PROPATTR/PROPVALUE) are NOT covered '
             'at tree level on the reader side (CBMC pointer-model artefact on props.push, DESIGN §4); they are covered at record level '
-            'and on the writer side. Struct/library level with elements only in the thorough tier.')
+            'and on the writer side. parse_struct / encode_struct and parse_lib / encode_lib WITH elements do not finish in an hour (the structs hold the '
+            'elements behind the GdsElement enum; experiments c0x_x_*lib_*): at library level only the header records and ENDLIB handling of '
+            'the empty library are decided.')
 CLAIMS['C01'] = dict(
     text=('For each of the 49 record kinds (strings of 0-3 bytes of any well-formed UTF-8 incl. NUL, XY of 0/2/5 values, any dates, reals '
           'in range) the bytes of the real write_record read back through read_record_header + read_record_content to an equal record, '
           'consuming exactly the payload; a string ending in NUL is refused. For each of the seven element kinds and 74 optional-field '
           'masks the record list of the real Encode::encode_<kind> is parsed back by the real parse_<kind> to an equal element; the empty '
-          'library round-trips through encode_lib / parse_lib (1-2 structs x 1-2 elements thorough); the look-ahead iterator next/peek '
+          'library (name, version, dates, units) round-trips through encode_lib / parse_lib; the look-ahead iterator next/peek '
           'returns the source records in order and never reads past ENDLIB. Each instance is one SAT query over all payload values; the '
           'quick tier runs 11 fixed instances plus 5 chosen by VERIF_SEED, the thorough tier all ~160.'),
     note=GDS_NOTE, design='§4 C01/C02/C03/C10')
@@ -152,7 +154,7 @@ NOT_APPLICABLE = {
 PENDING = {}
 
 # properties whose thorough tier has been run green on this tree (others register the quick command only)
-THOROUGH_OK = {'C15', 'C09', 'C14', 'C12', 'C07'}  # for these the thorough tier is the same harness set as the quick tier
+THOROUGH_OK = {'C15', 'C09', 'C14', 'C12', 'C07', 'C10'}  # for these the thorough tier is the same harness set as the quick tier
 
 
 def main():
